@@ -435,6 +435,11 @@ static int tx_cb(int hook, htp_tx_t *tx) {
         if (!r->cb_nonok[side] && !r->cb_declined_body[side] && el != r->body_seen[side])
             violate(ex, "C06", side ? "C06.response_entity_len_vs_delivered" : "C06.request_entity_len_vs_delivered",
                     strfmt("tx#%d entity_len=%lld delivered=%lld", r->ordinal, (long long) el, (long long) r->body_seen[side]));
+        // ... and a message whose body was delivered gets the end-of-body marker before its completion callback (bytes handed
+        // over by the lenient "treat as body" paths belong to a message that has no body by its framing: outside the statement)
+        if (!r->cb_nonok[side] && !r->cb_declined_body[side] && r->body_seen[side] > 0 && r->eob[side] == 0 && r->lenient_site[side].empty())
+            violate(ex, "C06", side ? "C06.response_no_end_of_body_marker" : "C06.request_no_end_of_body_marker",
+                    strfmt("tx#%d delivered=%lld seq=%s", r->ordinal, (long long) r->body_seen[side], r->cbseq_full.c_str()));
     }
     int act = scripted_action(ex, hook);
     return apply_action(ex, hook, act, tx, r);
